@@ -388,6 +388,18 @@ theorem fallback_plan_covered (t : Transport) (c : Cause) (rest : List SendOut) 
   · rw [h.1]; rfl
   · rw [h.2]; rfl
 
+/-- why the hypothesis of `one_terminal_reply_covered` is the unit form and not "`planCovered` for every fault event":
+`[ser]` and `[big]` are covered plans each, one after the other they make the fallback ERROR of the first refusal meet the
+second refusal — the endpoint is called, the invocation ends, nothing is sent -/
+example : planCovered [.serialization] = true ∧ planCovered [.payloadExceeded] = true ∧
+    planUnits ([.serialization] ++ [.payloadExceeded]) = false ∧
+    terminals 9 (runOuts (init .sync) (callee1 ++ [.fault [.serialization], .fault [.payloadExceeded],
+      .msg (.invocation 9 70 {} none) [{ ret := .val 1 }]])) = 0 ∧
+    accepts 9 (runOuts (init .sync) (callee1 ++ [.fault [.serialization], .fault [.payloadExceeded],
+      .msg (.invocation 9 70 {} none) [{ ret := .val 1 }]])) = 1 ∧
+    owing 9 (runState (init .sync) (callee1 ++ [.fault [.serialization], .fault [.payloadExceeded],
+      .msg (.invocation 9 70 {} none) [{ ret := .val 1 }]])) = 0 := by decide
+
 /-- what a real transport does with a result that is unfit for the wire — refuse it as its `send()` table says, accept
 the fallback ERROR — is a covered unit (`fallback_covers`) -/
 theorem real_transport_plan_units (t : Transport) (c : Cause) (rest : List SendOut) (h : planUnits rest = true) :
